@@ -14,6 +14,9 @@
 //	out.Scheduler    the *scheduling.Scheduler (for hooks of other properties)
 //	schedkit.DumpReqs / DumpPod / DumpIT / Milli   canonical converters usable on any object
 //
+// Every generated object carries a distinct UID (the fake client assigns none, and Solve keys its pod cache and the
+// queue's staleness detection by pod UID); Run refuses a batch with duplicate pod UIDs.
+//
 // Nothing in this package is specific to one property; Gallina emission lives with the property harness.
 package schedkit
 
